@@ -71,7 +71,10 @@ def gen(rng, tier, i):
     return plan
 
 
-gen = _gen.with_lines(gen, ['_send_ping', 'schedule_ping', 'check_ping_timeout', 'receive', '_service_task', 'close'], cluster=0.0)
+gen = _gen.with_lines(gen, ['_send_ping', '_send_ping', 'check_ping_timeout',
+                            'receive', 'schedule_ping', '_service_task'],
+                      p=0.3, cluster=0.0, stall=0.6,
+                      stalls=(2, 8, 8, 32))
 
 def run(plan, sched_values=None, sched_seed=0):
     h = run_server_scenario(plan, sched_values, sched_seed)
